@@ -118,9 +118,13 @@ var ripemd = common.StringToAddress("0000000000000000000000000000000000000003")
 
 func (ch touchChange) undo(s *AccountDB) {
 	if !ch.prev && *ch.account != ripemd {
-		s.getAccountObject(*ch.account, false).touched = ch.prev
+		obj := s.getAccountObject(*ch.account, false)
+		obj.touched = ch.prev
 		if !ch.prevDirty {
 			delete(s.accountObjectsDirty, *ch.account)
+			// touch() consumed the object's dirty callback; without it a later
+			// write to the account would never be marked dirty again
+			obj.onDirty = s.MarkAccountObjectDirty
 		}
 	}
 }
